@@ -244,7 +244,7 @@ def gen(rnd, *, core=False, res_choices=(60, 60, 30, 15), subslot=True, alap=Non
             bs = []
             for _ in range(rnd.randint(1, 2)):
                 s = base + timedelta(days=rnd.randrange(0, max(2, min(14, span_days))), minutes=rnd.randrange(0, 24 * 60, res))
-                bs.append((s, rnd.choice([res, 2 * res, 6 * 60, 24 * 60, 3 * res, 2 * 24 * 60, 3 * 24 * 60])))
+                bs.append((s, rnd.choice([res, 2 * res, 6 * 60, 24 * 60, 3 * res, 2 * 24 * 60, 3 * 24 * 60, 7 * 24 * 60])))   # 7 days are written '+1w'
             r["bookings"] = bs
         if limits and rnd.random() < 0.3:
             r["limits"] = {rnd.choice(["dailymax", "weeklymax"]): rnd.choice([1, 2, 3, 4, 6, 1.5, 2.5, 7.5, 3.75])}   # fractions: seeded change C05-d rounded them
@@ -305,7 +305,10 @@ def gen(rnd, *, core=False, res_choices=(60, 60, 30, 15), subslot=True, alap=Non
             k = rnd.random()
             if k < 0.4:
                 a = s + timedelta(minutes=rnd.randrange(0, 18 * 60, res))
-                gl.append((rnd.choice(["holiday", "special"]), a, a + timedelta(minutes=rnd.choice([res, 4 * 60, 3 * res, 8 * 60]))))
+                ln = rnd.choice([res, 4 * 60, 3 * res, 8 * 60])
+                if not aligned and rnd.random() < 0.5:
+                    ln += rnd.choice([res // 2, res // 3 or 1])     # the leave ends inside a slot: that slot is partly on leave
+                gl.append((rnd.choice(["holiday", "special"]), a, a + timedelta(minutes=ln)))
             elif k < 0.7:
                 gl.append(("holiday", s, None))
             else:
@@ -593,7 +596,7 @@ def render(m, refrnd=None, precrnd=None, extra_header=None, scenarios=None, trai
             L.append("%s  vacation %s" % (ind, fmt_dt(s) if e is None else "%s - %s" % (fmt_dt(s), fmt_dt(e))))
         for s, mins in r.get("bookings", []):
             # every unit the grammar knows: whole calendar days as 'd', whole hours as 'h', else minutes (seeded change C02-b)
-            dur = ("%dd" % (mins // 1440)) if mins % 1440 == 0 else (("%dh" % (mins // 60)) if mins % 60 == 0 else ("%dmin" % mins))
+            dur = ("%dw" % (mins // 10080)) if mins % 10080 == 0 else ("%dd" % (mins // 1440)) if mins % 1440 == 0 else (("%dh" % (mins // 60)) if mins % 60 == 0 else ("%dmin" % mins))
             L.append('%s  booking "B" %s +%s' % (ind, d_full(s), dur))
         if r.get("limits"):
             L.append("%s  %s" % (ind, limits_text(r["limits"])))
